@@ -23,7 +23,9 @@ FAULTS = {
                          'c.mv x8, nope\nc.nop', 'li nope, 5', 'li nope, 0x12345\nalign 4', 'jalr x0, nope, 0', 'csrrw x1, nope, 0x300', 'neg x8, nope', 'slli nope, x8, 1'],
     'undefined-label': ['beq x8, x0, NOWHERE', 'jal x0, NOWHERE', 'j NOWHERE', 'call NOWHERE\nalign 4', 'tail NOWHERE\nalign 4', 'dw NOWHERE', 'addi x8, x8, %offset(NOWHERE)',
                         'li x8, %position(NOWHERE, 0)\nalign 4', 'pack <I %position(NOWHERE, 4)', 'bnez x9, NOWHERE', 'c.j %offset(NOWHERE)\nc.nop'],
-    'undefined-constant': ['addi x8, x8, UNDEF + 1', 'dw UNDEF * 2', 'XX = UNDEF + 1', 'lui x8, %hi(UNDEF)', 'li x8, UNDEF\nalign 4', 'lw x8, x8, UNDEF'],
+    'undefined-constant': ['addi x8, x8, UNDEF + 1', 'dw UNDEF * 2', 'XX = UNDEF + 1', 'lui x8, %hi(UNDEF)', 'li x8, UNDEF\nalign 4', 'lw x8, x8, UNDEF',
+                           # an undefined name that happens to spell a register (a typo such as addi for add) is still an undefined name
+                           'addi x8, x8, t2', 'dw a5', 'lw x8, x8, sp', 'lui x8, %hi(gp)', 'sw x8, x9, x3 + 1', 'beq x8, x0, a0', 'addi x8, x8, s1 * 2'],
     'malformed-expression': ['addi x8, x8, 1 +', 'dw (1', 'YY = 1 +', 'addi x8, x8, 1 2', 'dw 3 3', 'addi x8, x8, ))', 'dw 0x', 'addi x8, x8, 08',
                              # expressions whose evaluation raises every family of Python exception
                              'addi x8, x8, [7][1]', 'dw {}[0]', 'addi x8, x8, "ab"[5]', 'dw (1).foo', 'dw 1 << -1', 'dw 1 // 0', 'addi x8, x8, 7 % 0', 'dw abs(1)', 'dw -',
